@@ -1,6 +1,7 @@
 import SigpyVerif.Model.Py
 import SigpyVerif.Model.Proto
 import SigpyVerif.Model.C11
+import SigpyVerif.Model.C11Psd
 namespace SigpyVerif.Drv.C11
 open SigpyVerif SigpyVerif.Proto SigpyVerif.C11
 
@@ -9,6 +10,8 @@ open SigpyVerif SigpyVerif.Proto SigpyVerif.C11
     call a=<rat> sh=<ints> x=<crats> :: <expr>      -> ok <shape> | <crats>      (P(α, x))
     kkt eps=<rat> x=<crats>                          -> ok feasible=<0|1> theta=<rat|none> kkt=<0|1>
     hard lam=<rat> x=<crats>                         -> ok <crats>
+    psd n=<nat> y=<crats> v=<crats> w=<rats>         -> ok <crats>   (row-major n×n; `err contract` unless
+                                                        VᴴV = I and V diag(w) Vᴴ = the matrix passed to eigh, exactly)
   <expr> (prefix):  noop S | l1reg S lam | l2reg S lam Y | l2regH S lam Y <expr> | l2proj S eps Y AX
                   | linf S eps Y | l1proj S eps | box S LO HI | conj <expr> | stack n <expr>*n
                   | unitary ISH OSH M <expr>
@@ -96,5 +99,15 @@ def handle (toks : List String) : String :=
       | .ok d => s!"ok {fmtCRatList d.toList}"
       | .error k => s!"err {k}"
     | _, _ => "err bad-op"
+  | some "psd" =>
+    match (kv toks "n").bind String.toNat?, (kv toks "y").bind parseCRatList?, (kv toks "v").bind parseCRatList?,
+          (kv toks "w").bind parseRatList? with
+    | some n, some y, some v, some w =>
+      if n = 0 ∨ y.length ≠ n * n ∨ v.length ≠ n * n ∨ w.length ≠ n then "err shape" else
+      let rows (l : List CQ) : CMat := (Array.range n).map fun i => (l.toArray.extract (i * n) (i * n + n))
+      match psdProjQ n (rows y) (rows v) w.toArray with
+      | .ok out => s!"ok {fmtCRatList (out.toList.flatMap Array.toList)}"
+      | .error k => s!"err {k}"
+    | _, _, _, _ => "err bad-op"
   | _ => "err bad-op"
 end SigpyVerif.Drv.C11
